@@ -42,6 +42,9 @@ def run(ctx):
                         "bool is not offered as n (whether True is an integer is not fixed by the statement)"]
     ctx.model_check(_sched.MC, "Scheduler_C02.cfg" if q else "Scheduler_C02_thorough.cfg", require=_sched.ALL_ACTIONS)
     ctx.negative_control(_sched.MC, "Scheduler_C02_neg_tmodf.cfg", "C02_AlgIsDecl")
+    # liveness (no state constraint): every request of n steps is worked off; without fairness it need not be (negative control)
+    ctx.model_check(_sched.MC, "Scheduler_Live.cfg")
+    ctx.negative_control(_sched.MC, "Scheduler_Live_neg_unfair.cfg", "C02_RequestEnds")
     _sched.spec_to_code(ctx, sample=2000 if q else None)
     ends = (-3, 0, 2, 3, 6, S.FOREVER)
     if q:
